@@ -228,15 +228,24 @@ main_error, cwd, api = None, os.getcwd(), []
 try:
     if job['mode'] == 'api2':
         from geophires_monte_carlo import GeophiresMonteCarloClient, MonteCarloRequest
+        keep = []       # the results stay alive, as in a caller that compares two studies
         for k, st in enumerate((job['settings'], job['settings2'])):
             for f in (JOB / 'log').glob('*.jsonl'):
                 f.unlink()
             res = GeophiresMonteCarloClient().get_monte_carlo_result(
-                MonteCarloRequest(SimulationProgram[job['program']], Path(job['base']), Path(st), Path(job['result'])))
+                MonteCarloRequest(SimulationProgram[job['program']], Path(job['base']), Path(st),
+                                  None if job.get('default_output') else Path(job['result'])))
+            keep.append(res)
             api.append({'output': res.result['output'], 'json_text': Path(res.json_output_file_path).read_text(),
-                        'result_text': Path(res.output_file_path).read_text(), 'tasks': len(_read_tasks())})
+                        'result_text': Path(res.output_file_path).read_text(), 'tasks': len(_read_tasks()),
+                        'path': str(res.output_file_path)})
+        for a, res in zip(api, keep):    # what each result object points at once both runs are over
+            p_ = Path(res.output_file_path)
+            a['result_text_after'] = p_.read_text() if p_.exists() else None
+            a['json_text_after'] = Path(res.json_output_file_path).read_text() if Path(res.json_output_file_path).exists() else None
     else:
-        MC.main([str(SimulationProgram[job['program']].code_file_path), job['base'], job['settings'], job['result']])
+        code = job.get('code_file') or str(SimulationProgram[job['program']].code_file_path)
+        MC.main([code, job['base'], job['settings'], job['result']])
 except BaseException as e:  # noqa
     main_error = f'{type(e).__name__}: {e}'[:500]
 os.chdir(cwd)
